@@ -48,6 +48,8 @@ def _env(scn, schedule):
         srv.store[k] = Item(v, f, 0, srv._next_cas(), srv.clock.now)
     if scn.get("cluster") is not None:
         srv.cluster_config = scn["cluster"]
+    if scn.get("dialect"):
+        srv.dialect = set(scn["dialect"])
     if scn.get("refuse"):
         srv.refuse.update({k.encode() if isinstance(k, str) else k: v for k, v in scn["refuse"].items()})
     return env
@@ -293,6 +295,21 @@ def corpus(sizes=(0, 1, 4090, 4094, 4095, 4096, 4097, 4098, 8190, 8192, 8194, 10
                 out.append(S({"op": "gets_many", "keys": ["c", "zz", "a"]}, three, cfg=dict(cfg, key_prefix=b"p:"), kind=kind))
                 out.append(S({"op": "gat", "key": "c", "expire": 5}, three, cfg=cfg, kind=kind))
                 out.append(S({"op": "get", "key": "big"}, [(b"big", b"x" * 5000, 7)], cfg=cfg, kind=kind))
+    # reply dialects - what another server version or a proxy may legally send: items in another order, a key answered once
+    # although asked twice, a cas field nobody asked for, a blank before CR LF, an item repeated, an item nobody asked for,
+    # an empty or very long VERSION, STAT values that are negative, huge, empty or contain blanks
+    for dia in ("reverse", "dedupe", "cas-always", "value-trailing-blank", "repeat-first", "unasked"):
+        for kind in ("client", "hash"):
+            out.append(S({"op": "get_many", "keys": ["a", "b", "c", "a"]}, three, dialect=[dia], kind=kind))
+            out.append(S({"op": "get", "key": "b"}, three, dialect=[dia], kind=kind))
+        out.append(S({"op": "gets_many", "keys": ["c", "a"]}, three, dialect=[dia]))
+        out.append(S({"op": "gats", "key": "c", "expire": 4}, three, dialect=[dia], cfg={"ignore_exc": True}))
+        out.append(S({"op": "get_many", "keys": ["a", "c"]}, three, dialect=[dia, "reverse"], cfg={"ignore_exc": True}, kind="pooled"))
+    for dia in ("version-empty", "version-long"):
+        out.append(S({"op": "version"}, [], dialect=[dia]))
+        out.append(S({"op": "raw_command", "command": b"version", "end": b"\r\n"}, [], dialect=[dia]))
+    for kind in ("client", "pooled", "hash"):
+        out.append(S({"op": "stats"}, [], dialect=["stats-odd"], kind=kind))
     # several commands sent through one raw_command: the reply starts with a one-line answer (STORED, DELETED, OK, TOUCHED,
     # a number ...) and goes on until the end token of the last command
     out.append(S({"op": "raw_command", "command": b"set k 0 0 1\r\nv\r\nget k", "end": b"END\r\n"}, [], expect=b"STORED\r\nVALUE k 0 1\r\nv\r\n"))
